@@ -17,6 +17,20 @@ def S(stream, quick, thorough, **kw):
     return d
 
 PROPS = {
+    "C18": {
+        "file": "C18.v",
+        "streams": [S("keys", 12, 200, no_model=True), S("ht", 200, 3000)],
+        "claim": "The table refines a map for every hash function (distinct keys never alias even when hashes or tags coincide; hashes 0 and 1 are ordinary) - theorems shared with C12; the reflect.Kind switch of keyhash.New is regenerated from the source on every run and proved to route each integer kind through a type of the same width and signedness and strings to the string hasher; the integer hasher is a function of the key's value. For floats (+0/-0), padded structs, interface-typed, pointer and array keys equality-implies-same-hash rests on hash/maphash.Comparable's documented contract: that part is conformance (20 key types written through one representation and read/overwritten/deleted through an equal one, integer keys whose Avalanche hash is exactly 0/1/2/3 obtained by inverting it, keys colliding modulo the table size).",
+        "note": "Trusted: Coq kernel, extraction, harness; hash/maphash (String, Comparable) contracts; the go/ast table generator (harness/kindtable.go). Partial: the stdlib hashers are exercised, not proved.",
+        "assumptions": ["64-bit target (int/uint/uintptr are 64 bits wide)"],
+    },
+    "C20": {
+        "file": "C20.v",
+        "streams": [S("cb", 44, 600, no_model=True)],
+        "claim": "Theorems over CallbackLts (virtual time; one timer thread per SetWithCallback call; arbitrary interleavings with Set, Delete, Clear, expiry removal and Close; every schedule and timing): at most once per call, never before its own deadline, never for a timer that elapses after Close returned, own key and value, nothing scheduled for failed/rejected/non-expiring writes, not when the key was deleted, cleared or rewritten with another deadline, no lock held while the callback runs. The Delete-then-shorter-re-Set defect (F11) is fixed and kept as a regression theorem; the same-deadline residual is stated explicitly. Tied to /repo by scenario runs under the virtual cache clock with real timers, callbacks re-entering the cache on their own key.",
+        "note": "Trusted: Coq kernel, harness, virtual-clock hook; timer accuracy and goroutine scheduling are the runtime's. The LTS is hand-written from writes.go/cache.go and tied only by the scenario stream (no extracted-model diff for this property).",
+        "assumptions": ["distinct deadlines for distinct writes of one key (B6); one shard suffices"],
+    },
     "C09": {
         "file": "C09.v",
         "streams": [S("cache", 250, 4000, focus="C09")],
